@@ -361,7 +361,9 @@ func report(w *World, o *checkOpts, results []*JobResult, wall float64) int {
 	if len(fails) > 0 && exit == 0 {
 		exit = 1
 	}
-	if o.property != "" && o.funcs == "" {
+	// evidence describes a run on /repo; runs on a scratch copy (--repo, used for
+	// seeded changes) must not overwrite it
+	if o.property != "" && o.funcs == "" && filepath.Clean(o.repo) == "/repo" {
 		writeEvidence(w, o, evidenceInput{all: all, funcs: funcs, total: total, discharged: discharged, violations: violations, known: known, bounded: bounded,
 			bySolver: bySolver, secsBySolver: secsBySolver, trusted: trusted, inlined: inlined, used: usedContracts, boundedLoops: boundedLoops,
 			abstracted: abstracted, deferred: deferred, unproved: unproved, wall: wall, undecided: undecided, vacuityOK: vacuityOK})
